@@ -1,11 +1,14 @@
 use crate::util::{Rng, RunOut};
 
+pub mod pod;
 pub mod token;
 
 pub fn generate(prop: &str, tier: &str, rng: &mut Rng) -> Vec<String> {
     match prop {
         "C16" => token::generate_c16(tier, rng),
         "C17" => token::generate_c17(tier, rng),
+        "C13" => pod::generate_c13(tier, rng),
+        "C14" => pod::generate_c14(tier, rng),
         _ => panic!("unknown property {prop}"),
     }
 }
@@ -13,6 +16,7 @@ pub fn generate(prop: &str, tier: &str, rng: &mut Rng) -> Vec<String> {
 pub fn run(prop: &str, cases: &[String]) -> RunOut {
     match prop {
         "C16" | "C17" => token::run(prop, cases),
+        "C13" | "C14" => pod::run(prop, cases),
         _ => panic!("unknown property {prop}"),
     }
 }
